@@ -35,7 +35,7 @@ func Gen(store string) func(t *rapid.T) *Case {
 						continue
 					}
 					subbed[id] = true
-					st := Step{K: "sub", ID: id}
+					st := Step{K: "sub", ID: id, Retry: rapid.Bool().Draw(t, "retry")}
 					switch rapid.IntRange(0, 5).Draw(t, "nest") {
 					case 0:
 						st.NestAt = rapid.IntRange(1, 3).Draw(t, "nestAt")
